@@ -11,7 +11,7 @@ from polyply.src.random_walk import RandomWalk
 BOX = np.array([10.0, 10.0, 10.0])
 GRID = np.array([[8.5, 8.5, 0.7 + 0.9 * j] for j in range(8)])
 
-Q_SHAPES = ["path3", "path4", "path5", "star4", "comb5", "ring4"]
+Q_SHAPES = ["path3", "path4", "path5", "star4", "comb5", "ring4", "path12"]
 T_SHAPES = ["path3", "path4", "path5", "path6", "path7", "star4", "star4b", "comb5", "comb6", "ring3", "ring4", "ring5"]
 
 
@@ -27,6 +27,10 @@ class _Tqdm:
 
 
 def _subsets(n, all_subsets):
+    if n >= 10:
+        # long chains (more than 10 residues: the engine consolidates its trees after such a molecule): most residues supplied
+        full = 2 ** n - 1
+        return [full >> 1, full >> 2, (full >> 1) & ~1, full & ~(3 << (n // 2)), full & ~(1 << 3) & ~(1 << (n - 1))]
     if all_subsets:
         return list(range(2 ** n))
     # none, each single node, first two, last two, all but the last, all but the first
@@ -48,10 +52,10 @@ def _subsets(n, all_subsets):
                   "RandomWalk(maxiter=) default 80 replaced by the bound `rw_maxiter` so that the give-up branch is reachable"],
            assumes=["the start grid points do not overlap supplied residues (start grid is placed away from the sentinels)"],
            outside=["schedules with more interposed placement calls than `calls`", "graphs outside the shape catalogue"],
-           must_cover=["rewound", "abandoned", "finished", "retry_after_abandon", "tree cached"],
+           must_cover=["rewound", "abandoned", "finished", "retry_after_abandon", "tree cached", "trees consolidated"],
            cfg={"path_timeout_s": 20},
            bounds={"quick": dict(shapes=Q_SHAPES, calls=7, nrewind=(2, 4), rw_maxiter=(2,), all_subsets=False, attempts=1),
-                   "thorough": dict(shapes=T_SHAPES[:9], calls=9, nrewind=(2, 5), rw_maxiter=(2, 3), all_subsets=False, attempts=2)},
+                   "thorough": dict(shapes=T_SHAPES[:8] + ["path12"], calls=9, nrewind=(2, 5), rw_maxiter=(2, 3), all_subsets=False, attempts=2)},
            budget={"quick": 200, "thorough": 1500})
 def rewind(sx, B):
     """Real BuildSystem.run_system/_compose_system/_handle_random_walk, RandomWalk._random_walk/_rewind and NonBondEngine on a
@@ -182,6 +186,8 @@ def rewind(sx, B):
                                  maxiter=B["attempts"], nrewind=nrewind)
         builder.run_system(top.molecules)
     sx.cover("finished")
+    if n > 10:
+        sx.cover("trees consolidated")
     eng = builder.nonbond_matrix
     for mi, molecule in enumerate(top.molecules):
         for node in molecule.nodes:
